@@ -581,6 +581,58 @@ def model_plug_correspondence(ctx: Ctx, state: dict):
 
 # ---------------------------------------------------------------------------------------------------------------
 
+def check_compiled_columns(ctx: Ctx, prep, comps, label: dict, rng, state: dict):
+    """the compiled program of a component with k outputs plugged, evaluated on (f bits, first k output bits IN OUTPUT ORDER), is the value of
+    the diagram _plug_outputs builds, evaluated at the same bits BY NAME -- relative to the normalisation graph (the compiled graphs share
+    one dropped power of two).  Ties the parameter-column bookkeeping of _compile_component to the surgery."""
+    import jax.numpy as jnp
+    from tsim.compile.evaluate import evaluate
+    from tsim.compile.pipeline import _plug_outputs, compile_program
+    from tsim.core.graph import get_params
+    if state.get("cols_done", 0) >= state.get("cols_cap", 0):
+        return True
+    try:
+        prog = compile_program(prep, mode="sequential")
+    except Exception as e:  # noqa
+        ctx.violation("compile-exception", f"compile_program raised {e!r} (circuit {label.get('key')})", dict(label, kind="columns", error=traceback.format_exc()[-1200:]))
+        return False
+    fglob = sorted(int(p_[1:]) for p_ in get_params(prep.graph) if p_.startswith("f"))
+    by_out = {tuple(c.output_indices): c for c in comps}
+    for pc in prog.components:
+        comp = by_out.get(tuple(pc.output_indices))
+        n = len(pc.output_indices)
+        if comp is None or n < 2 or len(list(comp.graph.vertices())) > 60:
+            continue
+        fsel = [int(j) for j in np.asarray(pc.f_selection)]
+        if len(fsel) + n > 14:
+            continue
+        state["cols_done"] = state.get("cols_done", 0) + 1
+        fnames = [f"f{fglob[j]}" for j in fsel]
+        mch = [f"m{i}" for i in pc.output_indices]
+        graphs = _plug_outputs(comp.graph, mch, list(range(n + 1)))
+        for _row in range(3):
+            fb = rng.integers(0, 2, size=len(fsel)).astype(bool)
+            mb = rng.integers(0, 2, size=n).astype(bool)
+            base = {nm: Fraction(int(b)) for nm, b in zip(fnames, fb)}
+            got0 = abs(complex(np.asarray(evaluate(pc.compiled_scalar_graphs[0], jnp.asarray(fb[None, :], dtype=jnp.bool_)))[0]))
+            want0 = abs(value(graphs[0], dict(base)))
+            if not (got0 > 0 and want0 > 0):
+                continue
+            for k in range(1, n + 1):
+                params = np.concatenate([fb, mb[:k]])[None, :]
+                got = abs(complex(np.asarray(evaluate(pc.compiled_scalar_graphs[k], jnp.asarray(params, dtype=jnp.bool_)))[0])) / got0
+                want = abs(value(graphs[k], dict(base, **{nm: Fraction(int(b)) for nm, b in zip(mch[:k], mb[:k])}))) / want0
+                ctx.count((label.get("key"), "cols", tuple(pc.output_indices), k, tuple(fb.tolist()), tuple(mb[:k].tolist())), nontrivial=True, bucket="compiled-columns")
+                if abs(got - want) > 1e-4:
+                    ctx.violation("compiled-columns",
+                                  f"component with outputs {list(pc.output_indices)}: the compiled program for {k} plugged outputs, evaluated on the first {k} output bits "
+                                  f"{mb[:k].astype(int).tolist()} (f={fb.astype(int).tolist()}), gives weight {got:.6g} relative to the normalisation; the plugged diagram "
+                                  f"evaluated at m{list(pc.output_indices[:k])} = those bits gives {want:.6g} (circuit {label.get('key')})",
+                                  dict(label, kind="columns", output_indices=list(pc.output_indices), k=k, f=fb.astype(int).tolist(), m=mb[:k].astype(int).tolist()))
+                    return False
+    return True
+
+
 def run_circuit(ctx: Ctx, text: str, detectors: bool, rng, state: dict, *, deep: bool):
     import tsim
     from tsim.compile.pipeline import _plug_outputs
@@ -599,6 +651,8 @@ def run_circuit(ctx: Ctx, text: str, detectors: bool, rng, state: dict, *, deep:
         ctx.hist.get("circuit-nonclifford-" + ("none" if t_like + arb == 0 else "T-only" if arb == 0 else "rot-only" if t_like == 0 else "mixed"), 0) + 1
     comps = check_components(ctx, g, label, rng, state, with_tensor=True)
     if comps is None:
+        return
+    if not check_compiled_columns(ctx, prep, comps, label, rng, state):
         return
     for ci, comp in enumerate(comps):
         if ctx.violations:
@@ -642,6 +696,8 @@ def run_circuit(ctx: Ctx, text: str, detectors: bool, rng, state: dict, *, deep:
 
 
 FIXED = [
+    # twelve outputs; one Clifford+T component owns outputs 2, 9, 10, 11 (indices whose decimal strings sort differently from the numbers)
+    ("H 2\nT 2\nCX 2 9\nCX 9 10\nH 10\nT 10\nCX 10 11\nH 11\nX_ERROR(0.25) 9\nM 0 1 2 3 4 5 6 7 8 9 10 11", False),
     ("RX 0\nT 0\nH 0\nCX 0 1\nX_ERROR(0.25) 1\nM 0 1\nH 0\nM 0", False),
     ("H 0\nT 0\nH 0\nT 0\nH 0\nT 0\nH 0\nM 0", False),
     ("H 0 1\nT 0 1\nCX 0 1\nH 0\nT 0\nH 1\nT_DAG 1\nH 0 1\nT 0\nM 0 1", False),
@@ -703,7 +759,7 @@ def run(ctx: Ctx) -> int:
     rng = ctx.np_rng()
     prng = ctx.rng
     state = dict(traces=[], trace_cap=30 if quick else 120, cc_cases=[], cc_cap=25 if quick else 100, plug_cases=[], plug_cap=10 if quick else 40,
-                 oracle_events_per_run=3 if quick else 8, zero_done=0, zero_cap=6 if quick else 30)
+                 oracle_events_per_run=3 if quick else 8, zero_done=0, zero_cap=6 if quick else 30, cols_done=0, cols_cap=12 if quick else 80)
     model_usable = not any(b.startswith("translator:") or "Model/" in b or "gen/" in b or "Gen_" in b or "Base/" in b for b in ctx.broken)
 
     cases = [(t, d, True) for t, d in FIXED]
@@ -762,7 +818,7 @@ def replay(ctx: Ctx, obj) -> int:
     print(json.dumps({k: v for k, v in r.items() if k != "error"})[:3000])
     if "circuit" not in r:
         return 1
-    state = dict(traces=[], trace_cap=0, cc_cases=[], cc_cap=0, plug_cases=[], plug_cap=0, oracle_events_per_run=50, zero_done=0, zero_cap=50)
+    state = dict(traces=[], trace_cap=0, cc_cases=[], cc_cap=0, plug_cases=[], plug_cap=0, oracle_events_per_run=50, zero_done=0, zero_cap=50, cols_done=0, cols_cap=50)
     run_circuit(ctx, r["circuit"], bool(r.get("detectors")), ctx.np_rng(), state, deep=True)
     print("violations on replay:", [v["key"] for v in ctx.violations] + [v["key"] for v in ctx.known_hits])
     return 1 if (ctx.violations or ctx.known_hits) else 0
